@@ -180,6 +180,8 @@ def run(ck: Check, repo: Repo) -> None:
     _image(ck, repo)
     _batch_dim(ck, repo)
     _agents(ck, repo)
+    from ._c15_r3b import run_r3b
+    run_r3b(ck, repo)
 
 
 # ------------------------------------------------------------------------------------------------ C15.11
@@ -499,6 +501,112 @@ def _rank_lint(ck: Check, repo: Repo) -> None:
     ck.floor("C15.2", n_cmp, 8, "rank comparisons in the observation utilities")
 
 
+# ---- one-hot widths by def-use: the width and the encoded value are followed through temporaries and through the clause (for-loop or comprehension) that
+# binds them; `for i, x in enumerate(S)` / `zip(S, W)` pair a component with its own width whichever way the iteration is spelled
+def _unwrap(e: Optional[ast.AST], fns: Tuple[str, ...] = (), meths: Tuple[str, ...] = ()) -> Optional[ast.AST]:
+    """`e` without value-neutral wrappers: `int(e)` (fns), `e.long()` (meths)."""
+    while isinstance(e, ast.Call):
+        if isinstance(e.func, ast.Name) and e.func.id in fns and len(e.args) == 1 and not e.keywords:
+            e = e.args[0]
+        elif isinstance(e.func, ast.Attribute) and e.func.attr in meths and not e.args and not e.keywords:
+            e = e.func.value
+        else:
+            break
+    return e
+
+
+def _alt_defs(cfg: CFG, at: Optional[Node], e: Optional[ast.AST], depth: int = 0) -> List[ast.AST]:
+    """The expressions `e` may stand for at `at`: a local is replaced by the values of its reaching plain bindings (both arms of a conditional expression),
+    repeatedly; anything else (and a local that is not plainly bound: a loop variable, a parameter) stands for itself."""
+    if isinstance(e, ast.IfExp):
+        return _alt_defs(cfg, at, e.body, depth) + _alt_defs(cfg, at, e.orelse, depth)
+    if isinstance(e, ast.Name) and at is not None and depth < 6:
+        out: List[ast.AST] = []
+        defs = cfg.defs_reaching(at, e.id)
+        for d in defs:
+            v = cfg.value_of_def(d, e.id) if d.kind == "stmt" else None
+            out += _alt_defs(cfg, d, v, depth + 1) if v is not None else [e]
+        return out or [e]
+    return [e] if e is not None else []
+
+
+def _iteration_role(fn: Fn, cfg: CFG, use: ast.AST, name: str) -> Optional[Tuple[ast.AST, str, ast.AST]]:
+    """How the iteration that binds `name` where `use` is evaluated produces it: (binding clause, "counter" | "elem", the iterable that is counted / whose
+    elements are taken).  The clause is the innermost comprehension clause around `use` that binds the name, otherwise the for-loop whose header is the
+    only definition reaching `use`."""
+    tgt = it = key = None
+    for n in ast.walk(fn.node):
+        if isinstance(n, (ast.ListComp, ast.SetComp, ast.GeneratorExp, ast.DictComp)) and any(x is use for x in ast.walk(n)):
+            for g in n.generators:
+                if any(isinstance(x, ast.Name) and x.id == name for x in ast.walk(g.target)):
+                    tgt, it, key = g.target, g.iter, g
+    if key is None:
+        node = cfg.node_of(use)
+        defs = cfg.defs_reaching(node, name) if node is not None else []
+        if len(defs) != 1 or defs[0].kind != "for":
+            return None
+        tgt, it, key = defs[0].ast.target, defs[0].ast.iter, defs[0].ast
+    is_name = lambda t: isinstance(t, ast.Name) and t.id == name
+    if isinstance(it, ast.Call) and call_name(it) == "enumerate" and len(it.args) == 1 and not it.keywords and isinstance(tgt, ast.Tuple) and len(tgt.elts) == 2:
+        if is_name(tgt.elts[0]):
+            return key, "counter", it.args[0]
+        if is_name(tgt.elts[1]):
+            return key, "elem", it.args[0]
+        return None
+    if isinstance(it, ast.Call) and call_name(it) == "zip" and isinstance(tgt, ast.Tuple) and len(tgt.elts) == len(it.args) and not any(isinstance(a, ast.Starred) for a in it.args):
+        for t, a in zip(tgt.elts, it.args):
+            if is_name(t):
+                return key, "elem", a
+        return None
+    if is_name(tgt):
+        return key, "elem", it
+    return None
+
+
+def _is_column_split(fn: Fn, cfg: CFG, s: ast.AST) -> bool:
+    """`s` (through temporaries) is the raw observation cut into its columns: torch.split(<observation>[.long()], 1, dim=1) or <observation>[.long()].split(1, dim=1)."""
+    alts = _alt_defs(cfg, cfg.node_of(s), s)
+    def one(v: ast.AST) -> bool:
+        if not isinstance(v, ast.Call):
+            return False
+        if call_name(v) == "torch.split" and v.args:
+            src, size, dim = v.args[0], get_kw(v, "split_size_or_sections", 1), get_kw(v, "dim", 2)
+        elif isinstance(v.func, ast.Attribute) and v.func.attr == "split":
+            src, size, dim = v.func.value, get_kw(v, "split_size", 0), get_kw(v, "dim", 1)
+        else:
+            return False
+        return dotted(_unwrap(src, meths=("long",))) == fn.named_params[0] and const_value(size) == 1 and const_value(dim) == 1
+    return bool(alts) and all(one(v) for v in alts)
+
+
+_SHAPE_ONLY = {"squeeze", "unsqueeze", "view", "reshape", "flatten", "contiguous", "clone", "detach"}
+_INT_DTYPES = {"torch.long", "torch.int64"}
+
+
+def _index_typed(fn: Fn, cfg: CFG, e: Optional[ast.AST], depth: int = 0) -> bool:
+    """`e` is an integer (index) tensor: the result of .long() / .to(torch.long), possibly cut, viewed or iterated afterwards."""
+    if e is None or depth > 6:
+        return False
+    if isinstance(e, ast.Call) and call_name(e) in ("torch.split", "torch.unbind", "torch.chunk"):
+        return bool(e.args) and _index_typed(fn, cfg, e.args[0], depth + 1)
+    if isinstance(e, ast.Call) and isinstance(e.func, ast.Attribute):
+        if e.func.attr == "long" and not e.args:
+            return True
+        if e.func.attr in ("to", "type") and any(dotted(a) in _INT_DTYPES for a in list(e.args) + [k.value for k in e.keywords]):
+            return True
+        if e.func.attr in _SHAPE_ONLY or e.func.attr in ("split", "unbind", "chunk"):
+            return _index_typed(fn, cfg, e.func.value, depth + 1)
+    if isinstance(e, ast.Subscript):
+        return _index_typed(fn, cfg, e.value, depth + 1)
+    if isinstance(e, ast.Name):
+        role = _iteration_role(fn, cfg, e, e.id)
+        if role is not None:
+            return role[1] == "elem" and _index_typed(fn, cfg, role[2], depth + 1)
+        alts = _alt_defs(cfg, cfg.node_of(e), e)
+        return bool(alts) and all(a is not e and not (isinstance(a, ast.Name) and a.id == e.id) and _index_typed(fn, cfg, a, depth + 1) for a in alts)
+    return False
+
+
 def _one_hot(ck: Check, repo: Repo) -> None:
     po = repo.fn(AU, "preprocess_observation")
     cfg = CFG(po.node)
@@ -509,22 +617,66 @@ def _one_hot(ck: Check, repo: Repo) -> None:
         s = ast.unparse(nc) if nc is not None else ""
         g = [ast.unparse(gg) for gg, pol in _expr_guards(cfg, c) if pol and "isinstance(observation_space" in ast.unparse(gg)]
         kind = g[-1].split("spaces.")[-1].rstrip(")") if g else "?"
+        # every value the width may hold where the encoding happens (a temporary is looked through)
+        widths = [_unwrap(w, fns=("int",)) for w in _alt_defs(cfg, cfg.node_of(c), nc)]
         if kind == "Discrete":
-            ck.ob("C15.3", po, c, s == "int(observation_space.n)", "Discrete values are one-hot encoded with width n of the space", detail=s)
+            ck.ob("C15.3", po, c, bool(widths) and all(dotted(w) == "observation_space.n" for w in widths), "Discrete values are one-hot encoded with width n of the space", detail=s)
         else:
-            # inside the MultiDiscrete comprehension: nvec[idx] with idx the enumerate counter of the split
-            comp = [x for x in ast.walk(po.node) if isinstance(x, ast.ListComp) and any(y is c for y in ast.walk(x))]
-            ok = bool(comp)
-            if ok:
-                g0 = comp[0].generators[0]
-                # the counter of enumerate(torch.split(observation.long(), 1, dim=1)) indexes nvec, its element is what is encoded
-                ok = isinstance(g0.iter, ast.Call) and call_name(g0.iter) == "enumerate" and "torch.split(observation.long(), 1, dim=1)" in ast.unparse(g0.iter) \
-                    and isinstance(g0.target, ast.Tuple) and isinstance(g0.target.elts[0], ast.Name) and s == f"int(observation_space.nvec[{g0.target.elts[0].id}])" \
-                    and dotted(c.args[0].func.value) == dotted(g0.target.elts[1])
+            # the encoded value is an element of the column split of the raw observation; the width is nvec[<counter of the same iteration>] (or the element of
+            # nvec that the same iteration pairs with the column)
+            enc = _unwrap(c.args[0], meths=("long",)) if c.args else None
+            r0 = _iteration_role(po, cfg, enc, enc.id) if isinstance(enc, ast.Name) else None
+            ok = r0 is not None and r0[1] == "elem" and _is_column_split(po, cfg, r0[2]) and bool(widths)
+            for w in widths if ok else []:
+                if isinstance(w, ast.Subscript) and dotted(w.value) == "observation_space.nvec" and isinstance(w.slice, ast.Name):
+                    r1 = _iteration_role(po, cfg, w, w.slice.id)
+                    ok = ok and r1 is not None and r1[0] is r0[0] and r1[1] == "counter" and r1[2] is r0[2]
+                elif isinstance(w, ast.Name):
+                    r1 = _iteration_role(po, cfg, c, w.id)
+                    ok = ok and r1 is not None and r1[0] is r0[0] and r1[1] == "elem" and dotted(r1[2]) == "observation_space.nvec"
+                else:
+                    ok = False
             ck.ob("C15.3", po, c, ok, "MultiDiscrete component idx is encoded with width nvec[idx] of the same component", detail=s)
-        ck.ob("C15.3", po, c, isinstance(c.args[0], ast.Call) and last_attr(c.args[0]) == "long", "the encoded value is converted to an integer index")
+        ck.ob("C15.3", po, c, bool(c.args) and _index_typed(po, cfg, c.args[0]), "the encoded value is converted to an integer index")
     src = ast.unparse(po.node)
     ck.ob("C15.3", po, po.node, "dim=-1" in src and "torch.cat(" in src, "MultiDiscrete encodings are concatenated on the feature axis in component order", construct="multi-discrete concat")
+
+
+def _predicate_atoms(repo: Repo, fn: Fn, atom: ast.AST, pol: bool, depth: int = 0) -> List[Tuple[ast.AST, bool]]:
+    """What is known when `atom` has the truth value `pol`: the atom itself and, when it holds and is a call of a function of the package whose body is a
+    single `return <condition>` (a named predicate such as is_image_space), the conjuncts of that condition with the arguments put in for the parameters."""
+    out: List[Tuple[ast.AST, bool]] = [(atom, pol)]
+    if not (pol and isinstance(atom, ast.Call) and depth < 3) or any(isinstance(a, ast.Starred) for a in atom.args) or any(k.arg is None for k in atom.keywords):
+        return out
+    callee = repo.resolve(fn.mod, call_name(atom))
+    if not isinstance(callee, Fn):
+        return out
+    body = [s for s in callee.node.body if not (isinstance(s, ast.Expr) and isinstance(s.value, ast.Constant) and isinstance(s.value.value, str))]
+    if len(body) != 1 or not isinstance(body[0], ast.Return) or body[0].value is None:
+        return out
+    bound = _bind_call(callee, atom)
+    if set(callee.named_params) - set(bound):
+        return out  # a parameter left to its default: not expanded
+    import copy
+    from ..domains import conjuncts
+    from ..inline import _Renamer
+    cond = _Renamer(dict(bound), {}).visit(copy.deepcopy(body[0].value))
+    for a, p in conjuncts(cond, True):
+        out += _predicate_atoms(repo, callee, a, p, depth + 1)
+    return out
+
+
+def _reads_attr(cfg: CFG, v: ast.AST, path: str, depth: int = 0) -> bool:
+    """`v` is computed from the attribute `path` (e.g. observation_space.low): it reads it directly or through locals that are bound to values which do."""
+    for x in ast.walk(v):
+        if isinstance(x, ast.Attribute) and dotted(x) == path:
+            return True
+    for x in ast.walk(v):
+        if isinstance(x, ast.Name) and isinstance(x.ctx, ast.Load) and depth < 4:
+            alts = _alt_defs(cfg, cfg.node_of(x), x)
+            if alts and all(a is not x and not (isinstance(a, ast.Name) and a.id == x.id) and _reads_attr(cfg, a, path, depth + 1) for a in alts):
+                return True
+    return False
 
 
 def _image(ck: Check, repo: Repo) -> None:
@@ -552,8 +704,9 @@ def _image(ck: Check, repo: Repo) -> None:
                 lo, hi = v.left.right.id, v.right.left.id
         ck.ob("C15.4", fn, r.ast, ok, "the scaled value is (observation - low) / (high - low)", detail=short(v, 80))
         for nm, attr in ((lo, "low"), (hi, "high")):
-            vals = [ast.unparse(x) for x in _alt_values(cfg, r, nm) if x is not None]
-            ck.ob("C15.4", fn, r.ast, bool(vals) and all(f"observation_space.{attr}" in x for x in vals), f"`{attr}` is the space's {attr} bound", detail=str(vals)[:120])
+            alts = [x for x in _alt_values(cfg, r, nm) if x is not None]
+            vals = [ast.unparse(x) for x in alts]
+            ck.ob("C15.4", fn, r.ast, bool(alts) and all(_reads_attr(cfg, x, f"observation_space.{attr}") for x in alts), f"`{attr}` is the space's {attr} bound", detail=str(vals)[:120])
     po = repo.fn(AU, "preprocess_observation")
     pcfg = CFG(po.node)
     calls = [c for c in calls_in(po.node) if call_name(c) == "apply_image_normalization"]
@@ -562,7 +715,8 @@ def _image(ck: Check, repo: Repo) -> None:
         atoms = []
         from ..domains import conjuncts
         for g, pol in _expr_guards(pcfg, calls[0]):
-            atoms += [(ast.unparse(a), p) for a, p in conjuncts(g, pol)]
+            for a, p in conjuncts(g, pol):
+                atoms += [(ast.unparse(a2), p2) for a2, p2 in _predicate_atoms(repo, po, a, p)]
         ok = ("len(observation_space.shape) == 3", True) in atoms and ("normalize_images", True) in atoms and ("isinstance(observation_space, spaces.Box)", True) in atoms \
             and [dotted(a) for a in calls[0].args] == ["observation", "observation_space"]
     ck.ob("C15.4", po, calls[0] if calls else po.node, ok, "normalisation is applied exactly to rank-3 Box observations when normalize_images is on, with the space of that observation")
@@ -647,6 +801,10 @@ _AUF = "agilerl/utils/algo_utils.py"
 _BF = "agilerl/algorithms/core/base.py"
 _IP = "agilerl/algorithms/ippo.py"
 _MAF = "agilerl/algorithms/maddpg.py"
+_MD_COMP = ("        observation = torch.cat(\n            [\n                F.one_hot(\n                    obs_.long(), num_classes=int(observation_space.nvec[idx])\n                ).float()\n"
+            "                for idx, obs_ in enumerate(torch.split(observation.long(), 1, dim=1))\n            ],\n            dim=-1,\n        )\n")
+_DIS = ("            homo_outputs[unique_id] = np.reshape(\n                homo_outputs[unique_id],\n                (len(self.homogeneous_agents[unique_id]), vect_dim, -1),\n            )\n"
+        "            for i, homo_id in enumerate(self.homogeneous_agents[unique_id]):\n                output_dict[homo_id] = homo_outputs[unique_id][i]\n")
 VARIANTS = [
     ("dict-member-loses-normalize-flag", _AUF, "                observation_space=observation_space[key],\n                device=device,\n                normalize_images=normalize_images,\n", "                observation_space=observation_space[key],\n                device=device,\n", "fire", "C15.7"),
     ("dict-recursion-as-comprehension-ok", _AUF, "        preprocessed_obs = {}\n        for key, _obs in observation.items():\n            preprocessed_obs[key] = preprocess_observation(\n                observation=_obs,\n                observation_space=observation_space[key],\n                device=device,\n                normalize_images=normalize_images,\n            )\n\n        return preprocessed_obs\n",
@@ -691,4 +849,51 @@ VARIANTS = [
      '        elif isinstance(observation_space, (spaces.Box, spaces.MultiBinary)):\n            if isinstance(observation_space, spaces.Box):\n                return observation_space.shape\n            else:\n                return (observation_space.n,)\n        else:\n            raise AttributeError(\n                f"Can\'t access state dimensions for', 'silent', None),
     ('state-dim-expression-box-flattened', _BF, '        elif isinstance(observation_space, spaces.Box):\n            return observation_space.shape\n        elif isinstance(observation_space, spaces.MultiBinary):\n            return (observation_space.n,)\n        else:\n            raise AttributeError(\n                f"Can\'t access state dimensions for',
      '        elif isinstance(observation_space, (spaces.Box, spaces.MultiBinary)):\n            return (int(np.prod(observation_space.shape)),) if isinstance(observation_space, spaces.Box) else (observation_space.n,)\n        else:\n            raise AttributeError(\n                f"Can\'t access state dimensions for', 'fire', 'C15.1'),
+    # ---- third round: re-spellings of the leaf branches of preprocess_observation (one verdict whichever way a width / a guard / an iteration is written)
+    ("discrete-width-through-a-local-ok", _AUF, "        observation = F.one_hot(\n            observation.long(), num_classes=int(observation_space.n)\n        ).float()\n",
+     "        num_classes = int(observation_space.n)\n        observation = F.one_hot(observation.long(), num_classes=num_classes).float()\n", "silent", None),
+    ("discrete-width-local-from-the-data", _AUF, "        observation = F.one_hot(\n            observation.long(), num_classes=int(observation_space.n)\n        ).float()\n",
+     "        num_classes = int(observation.max()) + 1\n        observation = F.one_hot(observation.long(), num_classes=num_classes).float()\n", "fire", "C15.3"),
+    ("multidiscrete-encoding-as-explicit-loop-ok", _AUF, _MD_COMP,
+     "        columns = torch.split(observation.long(), 1, dim=1)\n        one_hots = []\n        for idx, column in enumerate(columns):\n            num_classes = int(observation_space.nvec[idx])\n"
+     "            one_hots.append(F.one_hot(column, num_classes=num_classes).float())\n\n        observation = torch.cat(one_hots, dim=-1)\n", "silent", None),
+    ("multidiscrete-encoding-zipped-with-its-widths-ok", _AUF, _MD_COMP,
+     "        one_hots = []\n        for column, width in zip(torch.split(observation.long(), 1, dim=1), observation_space.nvec):\n"
+     "            one_hots.append(F.one_hot(column, num_classes=int(width)).float())\n        observation = torch.cat(one_hots, dim=-1)\n", "silent", None),
+    ("multidiscrete-loop-width-of-the-first-component", _AUF, _MD_COMP,
+     "        columns = torch.split(observation.long(), 1, dim=1)\n        one_hots = []\n        for idx, column in enumerate(columns):\n            num_classes = int(observation_space.nvec[0])\n"
+     "            one_hots.append(F.one_hot(column, num_classes=num_classes).float())\n\n        observation = torch.cat(one_hots, dim=-1)\n", "fire", "C15.3"),
+    ("multidiscrete-loop-counter-of-another-enumeration", _AUF, _MD_COMP,
+     "        columns = torch.split(observation.long(), 1, dim=1)\n        one_hots = []\n        for idx, _ in enumerate(observation_space.shape):\n            for column in columns:\n"
+     "                one_hots.append(F.one_hot(column, num_classes=int(observation_space.nvec[idx])).float())\n\n        observation = torch.cat(one_hots, dim=-1)\n", "fire", "C15.3"),
+    ("multidiscrete-loop-columns-not-integer", _AUF, _MD_COMP,
+     "        columns = torch.split(observation, 1, dim=1)\n        one_hots = []\n        for idx, column in enumerate(columns):\n"
+     "            one_hots.append(F.one_hot(column, num_classes=int(observation_space.nvec[idx])).float())\n\n        observation = torch.cat(one_hots, dim=-1)\n", "fire", "C15.3"),
+    ("image-check-through-is-image-space-ok", _AUF, "        if len(observation_space.shape) == 3 and normalize_images:", "        if normalize_images and is_image_space(observation_space):", "silent", None),
+    # ---- C15.12: no branch on the observed values
+    ("normalisation-skipped-when-the-data-looks-scaled", _AUF, "    if np.all(observation_space.high == 1) and np.all(observation_space.low == 0):\n        return observation\n",
+     "    if np.all(observation_space.high == 1) and np.all(observation_space.low == 0):\n        return observation\n\n    if observation.min() >= 0 and observation.max() <= 1:\n        return observation\n", "fire", "C15.12"),
+    ("normalisation-skipped-on-the-batch-peak-through-a-local", _AUF, "    if np.all(observation_space.high == 1) and np.all(observation_space.low == 0):\n        return observation\n",
+     "    if np.all(observation_space.high == 1) and np.all(observation_space.low == 0):\n        return observation\n\n    peak = observation.max()\n    if peak <= 1:\n        return observation\n", "fire", "C15.12"),
+    ("normalisation-only-for-bright-batches", _AUF, "        if len(observation_space.shape) == 3 and normalize_images:", "        if len(observation_space.shape) == 3 and normalize_images and bool((observation > 1).any()):", "fire", "C15.12"),
+    ("tensor-test-through-torch-is-tensor-ok", _AUF, "    if isinstance(observation, torch.Tensor):\n        low = torch.tensor(", "    if torch.is_tensor(observation):\n        low = torch.tensor(", "silent", None),
+    ("device-test-as-statement-ok", _AUF, "        return obs if obs.device == device else obs.to(device)\n", "        same_device = obs.device == device\n        if same_device:\n            return obs\n        return obs.to(device)\n", "silent", None),
+    # ---- C15.13: the bounds are the space's arrays
+    ("image-bounds-scalar-extremes-on-the-tensor-path", _AUF, "        low = torch.tensor(\n            observation_space.low, device=observation.device, dtype=observation.dtype\n        )\n        high = torch.tensor(\n            observation_space.high, device=observation.device, dtype=observation.dtype\n        )\n",
+     "        low = float(observation_space.low.min())\n        high = float(observation_space.high.max())\n", "fire", "C15.13"),
+    ("image-bounds-extremes-on-the-array-path", _AUF, "        low = observation_space.low\n        high = observation_space.high\n", "        low = observation_space.low.min()\n        high = observation_space.high.max()\n", "fire", "C15.13"),
+    ("image-bounds-first-element", _AUF, "        low = observation_space.low\n        high = observation_space.high\n", "        low = observation_space.low.flat[0]\n        high = observation_space.high.flat[0]\n", "fire", "C15.13"),
+    ("image-bounds-as-tensor-then-moved-ok", _AUF, "        low = torch.tensor(\n            observation_space.low, device=observation.device, dtype=observation.dtype\n        )\n        high = torch.tensor(\n            observation_space.high, device=observation.device, dtype=observation.dtype\n        )\n",
+     "        low = torch.as_tensor(observation_space.low).to(device=observation.device, dtype=observation.dtype)\n        high_np = observation_space.high\n        high = torch.from_numpy(high_np).to(observation.device).type(observation.dtype)\n", "silent", None),
+    # ---- C15.14: row layout of a shared policy's batch, producer vs consumer
+    ("disassemble-one-column-per-agent", _BF, _DIS, "            homo_ids = self.homogeneous_agents[unique_id]\n            grouped = np.reshape(\n                homo_outputs[unique_id], (vect_dim, len(homo_ids), -1)\n            )\n"
+     "            output_dict.update(zip(homo_ids, np.moveaxis(grouped, 1, 0)))\n", "fire", "C15.14"),
+    ("disassemble-sizes-swapped", _BF, "                (len(self.homogeneous_agents[unique_id]), vect_dim, -1),\n", "                (vect_dim, len(self.homogeneous_agents[unique_id]), -1),\n", "fire", "C15.14"),
+    ("disassemble-agent-taken-on-the-env-axis", _BF, "                output_dict[homo_id] = homo_outputs[unique_id][i]\n", "                output_dict[homo_id] = homo_outputs[unique_id][:, i]\n", "fire", "C15.14"),
+    ("shared-batch-joined-env-major", _AUF, "        return torch.cat(tensors, dim=0)\n", "        return torch.stack(tensors, dim=1).flatten(0, 1)\n", "fire", "C15.14"),
+    ("disassemble-zip-over-the-leading-axis-ok", _BF, _DIS, "            homo_ids = self.homogeneous_agents[unique_id]\n            grouped = np.reshape(homo_outputs[unique_id], (len(homo_ids), vect_dim, -1))\n"
+     "            output_dict.update(zip(homo_ids, grouped))\n", "silent", None),
+    ("disassemble-comprehension-over-a-transposed-view-ok", _BF, _DIS, "            homo_ids = self.homogeneous_agents[unique_id]\n            n_homo = len(homo_ids)\n            by_env = np.swapaxes(np.reshape(homo_outputs[unique_id], (n_homo, vect_dim, -1)), 0, 1)\n"
+     "            output_dict.update({homo_id: by_env[:, k] for k, homo_id in enumerate(homo_ids)})\n", "silent", None),
+    ("shared-batch-stacked-then-merged-ok", _AUF, "        return torch.cat(tensors, dim=0)\n", "        return torch.stack(tensors, dim=0).flatten(0, 1)\n", "silent", None),
 ]
